@@ -221,6 +221,8 @@ func (r *m1cRun) step(l []int64) {
 			returned = sched.Call(func() { _ = r.ep.Start("ws://fake") })
 			r.started = true
 		}
+	case 16: // the dispatcher's public CompleteRequest called directly with some id
+		returned = sched.Call(func() { r.disp.CompleteRequest(strconv.FormatInt(l[1], 10)) })
 	}
 	if !returned {
 		r.hung = true
@@ -251,7 +253,7 @@ func m1cDecode(in []int64) (variant, capacity, timeout int64, labs [][]int64) {
 		switch rest[0] {
 		case 1, 2:
 			n = 3
-		case 4, 7:
+		case 4, 7, 16:
 			n = 2
 		}
 		if len(rest) < n {
@@ -323,6 +325,7 @@ func m1cMonitor(in []int64) func(obs []int64) (string, string) {
 		stopped := true
 		for i, seg := range segs {
 			l := labs[i]
+			outBefore := outstanding
 			var ws, cbs [][]int64
 			for j := 0; j < len(seg); {
 				switch seg[j] {
@@ -356,6 +359,11 @@ func m1cMonitor(in []int64) func(obs []int64) (string, string) {
 			case 8:
 				stopped = true
 				outstanding = 0
+				for id := range accepted { // Stop discards what is queued, by design without conclusion
+					if !concluded[id] {
+						delete(accepted, id)
+					}
+				}
 			}
 			for _, w := range ws {
 				id := w[1]
@@ -402,17 +410,26 @@ func m1cMonitor(in []int64) func(obs []int64) (string, string) {
 					outstanding = w[1]
 				}
 			}
-			if l[0] == 2 && l[1] != outstanding && len(ws)+len(cbs) > 0 {
-				// a reply that does not carry the outstanding id must be ignored
-				ok := false
-				for _, c := range cbs {
-					if c[1] == l[1] {
-						ok = true
-					}
+			if l[0] == 2 && l[1] == outBefore && outBefore != 0 && !concluded[outBefore] {
+				return "C01-C09-genuine-reply-dropped", fmt.Sprintf("event %d: the reply carrying the outstanding id %d was not delivered to its caller", i, outBefore)
+			}
+			if (l[0] == 2 || l[0] == 16) && (l[1] != outBefore || l[0] == 16 && true) && len(ws)+len(cbs) > 0 && !(l[0] == 2 && l[1] == outBefore) {
+				// a reply (or completion) that does not carry the outstanding id must be ignored
+				return "C09-foreign-reply-effect", fmt.Sprintf("event %d: reply/completion with foreign id %d (outstanding %d) caused writes/callbacks", i, l[1], outBefore)
+			}
+		}
+		_ = 0
+		// at the end (quiescent): an accepted, unconcluded request of a running, connected endpoint must be
+		// outstanding or queued behind the outstanding one
+		if !stopped && !paused {
+			pendingN := 0
+			for id := range accepted {
+				if !concluded[id] {
+					pendingN++
 				}
-				if !ok {
-					return "C09-foreign-reply-effect", fmt.Sprintf("event %d: reply with foreign id %d caused writes/callbacks", i, l[1])
-				}
+			}
+			if pendingN > 0 && outstanding == 0 {
+				return "C01-C07-C10-stall", fmt.Sprintf("%d accepted request(s) neither concluded nor outstanding at the end of the history although the endpoint is connected", pendingN)
 			}
 		}
 		return "", ""
@@ -512,6 +529,9 @@ func m1cGen(cfg config, emit func(Case)) {
 				started, conn = false, false
 				issued = nil
 				class = "stopstart"
+			case p < 94:
+				// CompleteRequest for an id that is not the queue head (never used / queued further back)
+				in = append(in, 16, 2000+int64(rng.Intn(3)))
 			default:
 				in = append(in, 2, int64(rng.Intn(int(nextID))+0), 0)
 			}
